@@ -588,13 +588,22 @@ func c11Build(s *simcore.Source) c11Scenario {
 		}
 	case "jwt-finalizer":
 		sc.party = ""
-		sc.mech = "mechanisms:\n  authenticators:" + c11Authn + "  finalizers:\n    - id: mut\n      type: jwt\n      config:\n        signer:\n          name: heimdall\n          key_store:\n            path: " + simkeys.FixturePath("ec256") +
-			"\n        ttl: 5m\n        claims: '{\"role\": {{ quote .Subject.Attributes.role }}, \"rule\": \"r1\"}'\n"
+		authn, attrClaim := c11Authn, ""
+		if s.Draw(2, "attributes-vary") == 1 {
+			// the same user with other attributes (another session, other roles): the identity provider's answer depends
+			// on a forwarded client header, and the issued token names what it said
+			authn += "        forward_headers: [ \"X-Extra\" ]\n        cache_ttl: 0s\n"
+			attrClaim = ", \"session\": {{ quote .Subject.Attributes.digest }}"
+			sc.usesExtra, sc.extraHow = true, "reaches the subject's attributes"
+			sc.variation = "attributes-vary"
+		}
+		sc.mech = "mechanisms:\n  authenticators:" + authn + "  finalizers:\n    - id: mut\n      type: jwt\n      config:\n        signer:\n          name: heimdall\n          key_store:\n            path: " + simkeys.FixturePath("ec256") +
+			"\n        ttl: 5m\n        claims: '{\"role\": {{ quote .Subject.Attributes.role }}, \"rule\": \"r1\"" + attrClaim + "}'\n"
 		step1 := "    - authenticator: user\n    - finalizer: mut"
 		step2 := step1
 		if s.Draw(2, "override") == 1 {
 			sc.overrides = "claims"
-			step2 = "    - authenticator: user\n    - finalizer: mut\n      config:\n        claims: '{\"role\": {{ quote .Subject.Attributes.role }}, \"rule\": \"r2\"}'"
+			step2 = "    - authenticator: user\n    - finalizer: mut\n      config:\n        claims: '{\"role\": {{ quote .Subject.Attributes.role }}, \"rule\": \"r2\"" + attrClaim + "}'"
 		}
 		sc.rules = fmt.Sprintf(c11RuleTpl, step1, step2)
 	default: // client-credentials
